@@ -83,6 +83,12 @@ def run(repo, rep, tier):
     rep.check('marker', 'marker flag starts False and is set True at one guarded site', len(asg) == 2 and len(init) == 1 and len(sets) == 1, asg[0] if asg else ppf, 'definitions of kex_strict_marker: %s' % [unparse(a) for a in asg])
     if len(sets) == 1:
         conds = [(t, p) for t, p, k in path_condition(sets[0])]
+        from sa.slicer import uses as _uses
+        role_read = any('client_audit' in _uses(t) for t, p in conds)
+        rep.check('marker', 'marker detection depends on the audited role (client marker for clients, server marker for servers)', role_read, sets[0],
+                  'strict-kex marker detection does not look at the audited role (%s): a peer advertising only the other role\'s marker is treated as protected' % ' and '.join(unparse(t)[:120] for t, p in conds))
+        if not role_read:
+            conds = []
         C_LIT, S_LIT = 'kex-strict-c-v00@openssh.com', 'kex-strict-s-v00@openssh.com'
         table = {
             'algs.ssh2kex is not None': 'kexp', 'client_audit': 'client',
@@ -90,7 +96,7 @@ def run(repo, rep, tier):
         }
         atz = text_atomizer(table)
         bad = []
-        for bits in itertools.product([False, True], repeat=4):
+        for bits in (itertools.product([False, True], repeat=4) if conds else []):
             val = dict(zip(['kexp', 'client', 'c', 's'], bits))
             got = all(eval_prop(t, atz, val) == p for t, p in conds)
             want = val['kexp'] and ((val['client'] and val['c']) or (not val['client'] and val['s']))
